@@ -2377,7 +2377,7 @@ Proof.
   - pose proof (p_ring _ _ _ H Hu Hr) as Hwf.
     assert (Hwf1 : ring_wf s1) by (destruct Hwf as [A B C]; constructor; assumption).
     destruct (ring_push s1 id (p_pow _ _ _ H) Hu Hwf1 ltac:(rewrite Hri1; exact Hroom)) as (A & B & _).
-    rewrite A in E. injection E as E. rewrite <- E. rewrite B, Hri1. reflexivity.
+    rewrite A in E. injection E as E. rewrite <- E. etransitivity; [exact B|]. rewrite Hri1. reflexivity.
   - unfold ctrl_reset in E. change (uring s1) with (uring s) in E. rewrite Hu in E. injection E as E. rewrite <- E.
     unfold ring_ids. cbn [uring set_queue set_slots s1 queue]. rewrite Hu. reflexivity.
 Qed.
@@ -2414,21 +2414,21 @@ Proof.
   rewrite Hk, Hm, Hid in G |- *.
   destruct (slot_take (slots (set_cq s rest)) id) as [sl|]; [|contradiction].
   rewrite Hb in G |- *. cbn [reset_all good] in G |- *.
-  eexists. split; [reflexivity|]. split; [exact G|]. split; [exact Hr|]. split; [reflexivity|].
-  assert (Hnth : nth_error
-      (ops (set_nbusy (upd_op (set_slots (set_cq s rest) sl) (c_op c)
-         (mk_op (o_inflight o) (o_kdone o) [id] (o_q o) (Some (c_res c))))
-         (nbusy (set_cq s rest) + (if rescls_eqb (c_res c) RNoBufs then 1 else 0)))) (c_op c)
-      = Some (mk_op (o_inflight o) (o_kdone o) [id] (o_q o) (Some (c_res c)))).
-  { unfold upd_op, set_ops, set_nbusy. cbn [ops]. apply set_nth_eq. eapply nth_error_lt; eauto. }
+  set (s' := set_nbusy (upd_op (set_slots (set_cq s rest) sl) (c_op c)
+                          (mk_op (o_inflight o) (o_kdone o) [id] (o_q o) (Some (c_res c))))
+                       (nbusy (set_cq s rest) + (if rescls_eqb (c_res c) RNoBufs then 1 else 0))) in *.
+  exists s'. split; [reflexivity|]. split; [exact G|]. split; [exact Hr|]. split; [reflexivity|].
+  assert (Hnth : nth_error (ops s') (c_op c)
+                 = Some (mk_op (o_inflight o) (o_kdone o) [id] (o_q o) (Some (c_res c)))).
+  { unfold s', upd_op, set_ops, set_nbusy. cbn [ops]. apply set_nth_eq. eapply nth_error_lt; eauto. }
   split; [exact Hnth|].
   pose proof G as (P' & _).
-  assert (Hin : In (OwInOp (c_op c)) (owners _ id)).
+  assert (Hin : In (OwInOp (c_op c)) (owners s' id)).
   { unfold owners. do 4 (apply in_or_app; right). apply in_or_app. left.
     apply (owners_ops_In id o_buf OwInOp _ 0 (c_op c) _ Hnth). left; reflexivity. }
   apply (inv_owner_single _ id _ G); [|exact Hin].
   apply (pinv_id_lt _ _ _ _ P'). rewrite <- owners_length.
-  destruct (owners _ id); [destruct Hin|cbn [length]; lia].
+  destruct (owners s' id); [destruct Hin|cbn [length]; lia].
 Qed.
 
 (* dropping the operation returns its buffer to the ring tail *)
@@ -2489,8 +2489,8 @@ Proof.
   assert (Hrn : rescls_eqb r RNoBufs = false) by (destruct r; try reflexivity; congruence).
   assert (E1 : step s (LKernel k true false r) = Some (Ok s1)).
   { cbn [step]. rewrite Hk, Hd, Hu, Hi, Hrel, Hrn. cbn [negb andb orb]. rewrite Hks.
-    rewrite Bool.andb_false_r. reflexivity. }
-  pose proof (step_good s _ Hinv) as G1. rewrite E1 in G1. cbn [good] in G1.
+    rewrite ?Bool.andb_false_r. reflexivity. }
+  pose proof (step_good s (LKernel k true false r) Hinv) as G1. rewrite E1 in G1. cbn [good] in G1.
   assert (Hk1 : nth_error (ops s1) k = Some o1).
   { unfold s1, upd_op, set_ops, set_cq. cbn [ops]. apply set_nth_eq. eapply nth_error_lt; eauto. }
   destruct (error_completion_taken s1 c [] id o1 G1 Hrel
